@@ -178,6 +178,10 @@ def run(timeout_ms=60000):
             s = z3.Solver()
             s.set("timeout", timeout_ms)
             s.add(*m.constraints)
+            if s.check() != z3.sat:
+                rec.update({"verdict": "error", "detail": "vacuous: the constraints on the symbolic text are not satisfiable", "time_s": 0})
+                res.append(rec)
+                continue
             s.add(B(bad))
             rr = s.check()
             rec.update({"verdict": str(rr), "time_s": round(time.time() - t0, 2)})
